@@ -17,7 +17,8 @@ def main(argv=None) -> int:
     args = ap.parse_args(argv)
     import dask
     dask.config.set(scheduler="synchronous")
-    mod = importlib.import_module(f"harness.props.{args.pid.lower()}")
+    name = {"sys": "sessions"}.get(args.pid.lower(), args.pid.lower())
+    mod = importlib.import_module(f"harness.props.{name}")
     return core.check(mod, args.tier, args.seed, replay=args.replay)
 
 
